@@ -976,3 +976,34 @@ def rf96(run):
     if n < 2:
         raise F.AnalysisBroken('func_proto_read: only %d error exits found' % n)
     return n
+
+
+# ---------------------------------------------------------------------------------------------
+# RF103: string escapes printed by MIR_output_str are self-delimiting in C
+# ---------------------------------------------------------------------------------------------
+
+def rf103(run):
+    import re
+    rule = 'RF103'
+    run.rule(rule, 'MIR_output_str prints string operands for the text writer and for mir2c.  Every numeric escape it emits has a fixed '
+                   'length in both languages: three octal digits (`\\\\%03o`).  A hexadecimal escape `\\\\xHH` is read as two digits by the MIR '
+                   'scanner but takes every following hexadecimal digit in C, so "\\\\x01beef" becomes one byte in the translation')
+    tu = run.tu('mir')
+    f = tu.func('MIR_output_str')
+    run.functions_analysed.add(('mir', f.name))
+    n = 0
+    for x in f.walk():
+        if x['k'] == 'StringLiteral' and '%' in x['s'] and '\\' in x['s']:
+            n += 1
+            hexesc = re.search(r'\\x%', x['s']) is not None
+            octal_ok = re.search(r'\\%03o', x['s']) is not None
+            ok = not hexesc and (octal_ok or not re.search(r'\\%', x['s']))
+            run.ob(rule, (x['l'],), ok, {'format': x['s']})
+            if not ok:
+                run.violation(rule, f, 'escape format %s' % x['s'], 'MIR_output_str prints non-printable bytes with the format "%s": %s' %
+                              (x['s'], 'a C hexadecimal escape has no length limit, so a following character in [0-9a-fA-F] is swallowed by '
+                               'the C compiler and the string operand of a call in the mir2c translation differs from the MIR string' if hexesc
+                               else 'an octal escape shorter than three digits merges with a following digit'), line=x['l'])
+    if n == 0:
+        raise F.AnalysisBroken('MIR_output_str: numeric escape format not found')
+    return n
